@@ -276,15 +276,16 @@ theorem table_of_concat_is_merge_of_part_summaries {O : Oracles} {q : AggStmt} (
 /-- **the executed batch run over a split input** (`runBatch` = the `FileExecutor` loop the driver runs; carried there
 through the C04 refinement `batch_refines_spec_nojoin`). For an aggregate statement without join whose aggregates are
 order-insensitive, and file lists `f`, `f₁`, `f₂` such that the lines of `f` are the lines of `f₁` followed by the lines of `f₂`
-(one file cut in two, a list of files cut in two, …): whenever the specification answers with an empty deviation class
-(C04: D10, D15) for the three inputs and `SplitSafe` holds per group, there are — explicitly: `Sᵢ = partSummaries` of the
+(one file cut in two, a list of files cut in two, …): whenever the specification answers for the three inputs — with an
+empty deviation class (C04: D10, D15) for the two parts; its class `cls` for the whole is then empty as well,
+`specBatch_concat_class` — and `SplitSafe` holds per group, there are — explicitly: `Sᵢ = partSummaries` of the
 rows of part i — keyed summaries `S₁`, `S₂` such that `runBatch` over part i prints `tableOfSummaries O q Sᵢ` and counts the
 part's lines, and `runBatch` over the whole prints `tableOfSummaries O q (mergeSummaries q S₁ S₂)` and counts all lines
 (`tableOut q t n` = the table `t` under the statement's column names printed once, `n` lines, no error). -/
 theorem batch_run_of_split_is_merge_of_summaries {O : Oracles} {qy : Query} {q : AggStmt} (hq : qy.stmt = .aggregate q)
     (hwf : StmtWF q) (hj : qy.join = none) (hOI : ∀ kind ∈ slotKinds q, orderInsensitive kind = true) (joined : List FileLine)
-    {f f₁ f₂ : List (List FileLine)} (hf : f.flatten = f₁.flatten ++ f₂.flatten) {ro ro₁ ro₂ : RunOut}
-    (h : Spec.Agg.batch O qy q joined f = some (ro, "")) (h₁ : Spec.Agg.batch O qy q joined f₁ = some (ro₁, ""))
+    {f f₁ f₂ : List (List FileLine)} (hf : f.flatten = f₁.flatten ++ f₂.flatten) {ro ro₁ ro₂ : RunOut} {cls : String}
+    (h : Spec.Agg.batch O qy q joined f = some (ro, cls)) (h₁ : Spec.Agg.batch O qy q joined f₁ = some (ro₁, ""))
     (h₂ : Spec.Agg.batch O qy q joined f₂ = some (ro₂, ""))
     (hsafe : ∀ k₁ k₂, keyedRows O q (envsOf qy.table f₁.flatten) = some k₁ → keyedRows O q (envsOf qy.table f₂.flatten) = some k₂ →
       ∀ k, SplitSafe O q (rowsOfKey k k₁) (rowsOfKey k k₂)) :
@@ -297,6 +298,17 @@ theorem batch_run_of_split_is_merge_of_summaries {O : Oracles} {qy : Query} {q :
       runBatch O qy joined f none = tableOut q t (f₁.flatten.length + f₂.flatten.length) :=
   runBatch_concat_merge_summaries hq hwf hj hOI joined hf h h₁ h₂ hsafe
 
+/-- **the deviation class of a concatenation is empty when the classes of both parts are** (and the table of the whole
+exists): a group of the whole has rows in some part and is visible (D10) there; an aggregate that creates an entry for a part of
+a group creates one for the whole group. Hence the split theorems ask "outside D10 / D15" of the PARTS only. The converse fails
+(example at the end: a group invisible in one part, visible in the whole). -/
+theorem deviation_class_of_concat {O : Oracles} {q : AggStmt} (hwf : StmtWF q)
+    (hOI : ∀ kind ∈ slotKinds q, orderInsensitive kind = true) {r₁ r₂ : List Env} {t : List (List Value)}
+    (h : table O q (r₁ ++ r₂) = some t) {k₁ k₂ : List (List Value × Env)}
+    (hk₁ : keyedRows O q r₁ = some k₁) (hk₂ : keyedRows O q r₂ = some k₂)
+    (hc₁ : deviationClass O q r₁ = "") (hc₂ : deviationClass O q r₂ = "") : deviationClass O q (r₁ ++ r₂) = "" :=
+  deviationClass_concat hwf hOI h hk₁ hk₂ hc₁ hc₂
+
 /-- what a batch run answers for keyed summaries `S` and `n` lines read: their table printed once (`none`: HAVING or a
 transform has no value on the finished summaries) -/
 def outOfSummaries (O : Oracles) (q : AggStmt) (n : Nat) (S : List (List Value × List Summary)) : Option RunOut :=
@@ -308,8 +320,8 @@ answers the same; and for each part alone it answers `outOfSummaries` of that pa
 `l₁ ++ l₂` is a function of the two per-part summaries (and the two line counts). -/
 theorem batch_run_of_concat_is_merge_of_summaries {O : Oracles} {qy : Query} {q : AggStmt} (hq : qy.stmt = .aggregate q)
     (hwf : StmtWF q) (hj : qy.join = none) (hOI : ∀ kind ∈ slotKinds q, orderInsensitive kind = true) (joined : List FileLine)
-    (l₁ l₂ : List FileLine) {ro ro₁ ro₂ : RunOut}
-    (h : Spec.Agg.batch O qy q joined [l₁ ++ l₂] = some (ro, "")) (h₁ : Spec.Agg.batch O qy q joined [l₁] = some (ro₁, ""))
+    (l₁ l₂ : List FileLine) {ro ro₁ ro₂ : RunOut} {cls : String}
+    (h : Spec.Agg.batch O qy q joined [l₁ ++ l₂] = some (ro, cls)) (h₁ : Spec.Agg.batch O qy q joined [l₁] = some (ro₁, ""))
     (h₂ : Spec.Agg.batch O qy q joined [l₂] = some (ro₂, ""))
     (hsafe : ∀ k₁ k₂, keyedRows O q (envsOf qy.table l₁) = some k₁ → keyedRows O q (envsOf qy.table l₂) = some k₂ →
       ∀ k, SplitSafe O q (rowsOfKey k k₁) (rowsOfKey k k₂)) :
@@ -321,6 +333,8 @@ theorem batch_run_of_concat_is_merge_of_summaries {O : Oracles} {qy : Query} {q 
     some (runBatch O qy joined [l₁] none) = (partSummaries O q (envsOf qy.table l₁)).bind (outOfSummaries O q l₁.length) ∧
     some (runBatch O qy joined [l₂] none) = (partSummaries O q (envsOf qy.table l₂)).bind (outOfSummaries O q l₂.length) := by
   have hf : [l₁ ++ l₂].flatten = [l₁].flatten ++ [l₂].flatten := by simp
+  have hcls := specBatch_concat_class hwf hj hOI joined hf h h₁ h₂
+  subst hcls
   obtain ⟨S₁, S₂, t₁, t₂, t, hS₁, hS₂, hT₁, hT₂, hT, e₁, e₂, e⟩ :=
     runBatch_concat_merge_summaries hq hwf hj hOI joined hf h h₁ h₂ (by simpa using hsafe)
   simp only [List.flatten_cons, List.flatten_nil, List.append_nil] at hS₁ hS₂ e₁ e₂ e
@@ -679,6 +693,19 @@ example : ((partSummaries {} exAll exReal₁).bind (fun S₁ => (partSummaries {
             .moments (.real 0xbfd0000000000000) (.real 0x401e400000000000) 3]),
           ([.text [98]], [.key, .count 2, .sum (.real 0x4059200000000000), .avg (.real 0x4059200000000000) 2,
             .moments (.real 0x4059200000000000) (.real 0x40c3882000000000) 2])] := by decide +kernel
+
+/-- the classes of the example parts and of the whole are empty (hypotheses / conclusion of `deviation_class_of_concat`) -/
+example : deviationClass {} exAll exRows = "" ∧ deviationClass {} exAll exPart₂ = "" ∧
+    deviationClass {} exAll (exRows ++ exPart₂) = "" := by decide +kernel
+/-- the converse of `deviation_class_of_concat` fails: `SELECT k, COUNT(v) … GROUP BY k` — the part (a, NULL) alone falls into D10
+(COUNT(v) creates no entry), the whole (a, NULL), (a, 1) does not -/
+def exCountV : AggStmt :=
+  { items := [{ name := "k", kind := .groupKey (.column "k") "k", transform := none },
+              { name := "count1", kind := .count (some "v") false, transform := none }],
+    filter := none, groupBy := some [(.column "k", "k")], having := none, havingAggs := [], havingKeys := [],
+    havingVisit := [], limit := none, distinct := false }
+example : deviationClass {} exCountV [rowKV 97 .null] = "D10:group-without-value-entry" ∧
+    deviationClass {} exCountV ([rowKV 97 .null] ++ [rowKV 97 (.int 1)]) = "" := by decide +kernel
 
 /-- **why the three `= some` hypotheses of the split theorems stay**: `SELECT SUM(v)` — the table of the whole exists while
 the second part's does not (after `-2^62 - 2^62` the sum `+ (2^63-1) + 2^62` stays in range; alone it overflows), and the
